@@ -185,6 +185,10 @@ def run_check(modname, tier, seed, jobs=None):
                         stop = True
                 if errors:
                     break
+                if best and os.environ.get("VERIF_STOP_ON_VIOLATION") and not stop:
+                    # mutant runs only need to know WHETHER the change is reported: stop submitting, say so
+                    caps["stopped_on_violation"] = f"stopped submitting after {done}/{len(work)} scenarios (first violation)"
+                    stop = True
                 if budget and time.time() - t0 > budget and not stop:
                     caps["wall_budget"] = f"stopped submitting after {done}/{len(work)} scenarios ({budget}s budget)"
                     stop = True
